@@ -18,6 +18,18 @@ CHECKS = {
          "6*10^4 (quick) / 2*10^6 (thorough) catalogues whose consecutive names share / change fields (run markers around 100/200, empty fields, tabs, changing field counts) and whose in-group ids repeat, go back, return to 0 or jump; up to 129 samples in 1..59-sample codec batches and in real 50-sample archive batches; ~60 / 3000 created archives for the listing layer.",
          "Group ids <= 100000, ids <= 10^6; names unique and NUL-free. The independent decoder defines the byte format.",
          "DESIGN.md §6 C03"),
+ "C04": ("exploration", "metamorphic testing over generated schedule sets: the same collection created 5..12 times with different thread counts, queue capacities, producer delays and seeded worker-side perturbation (hook H2); oracle = identical SHA-256",
+         "48 (quick) / 800 (thorough) collections, ~300 / ~8000 creates; two fifths are single PanSN files with sync-token rounds every 1..8 contigs, thread counts from {1,2,3,4,8,16} with at least three distinct per case.",
+         "Real-thread interleavings are sampled with perturbation, not owned: a race that needs a window the hook points never open can be missed. This is randomised schedule generation, not model checking.",
+         "DESIGN.md §6 C04"),
+ "C05": ("exploration", "generated (workers, capacity, sync placement, delays, perturbation) configurations of the real pipeline in a child process with an event-log based stuck-state proof, plus shuttle random/PCT schedule exploration of the real queue source under a skeleton of the protocol",
+         "192 (quick) / 6000 (thorough) pipeline runs incl. capacities below one contig and explicit sync_and_flush; 5*10^4 (quick) / 2*10^6 (thorough) shuttle schedules of the 1-producer / 1..4-worker / 0..3-round skeleton.",
+         "Bounded liveness: a run either returns within the watchdog or the log must prove the stuck state; slow-but-live is inconclusive (exit 2). The exhaustive N<=3 exploration the quantifier mentions would be model checking, which this technique family does not do; shuttle's randomised schedulers are the in-family substitute.",
+         "DESIGN.md §6 C05"),
+ "C06": ("exploration", "sequential model-based testing + shuttle random/PCT schedule exploration of the real queue source with an under-lock event log replayed against the sequential model + real-thread runs with the same log-replay oracle",
+         "2*10^5 (quick) / 4*10^6 (thorough) sequential histories; 7*10^4 / 2.6*10^6 shuttle schedules (p<=3, c<=3, <=8 items, racing close); 480 / 10^4 real-thread runs with up to 16 threads.",
+         "Concurrent legs assume every item fits the capacity (the statement's precondition). Schedules are randomised (seeded), not exhaustive.",
+         "DESIGN.md §6 C06"),
  "C07": ("exploration", "proptest archives x enumerated / junction-centred (start,end) ranges; oracle = slice of the full extraction",
          "~110 (quick) / 2000 (thorough) archives with many short segments; every (start,end) for contigs <= 90 bases, otherwise every start within +-(k+1) of segment junctions crossed with a family of ends, ~8*10^5 range queries per quick run.",
          "Relative to full extraction (C01 relates that to the input).",
@@ -62,6 +74,14 @@ CHECKS = {
          "240 (quick) / 4000 (thorough) cases, ~40 process runs each: stdout and -o for lists with repeats and for prefixes matching several samples; unsupported flags --batch/--adaptive/--concatenated; unknown names, missing / truncated / garbage archives.",
          "Single-sample getset is the reference for composition.",
          "DESIGN.md §6 C17"),
+ "C18": ("exploration", "differential testing of two build profiles (release vs release+overflow-checks) of both the CLI and the harness on generated archives and LZ pairs",
+         "160 (quick) / 4000 (thorough) collections biased to single files with many sync rounds, created and extracted by both builds (4 extraction combinations, byte identity where creation is deterministic); 10^5 (quick) / 3*10^6 (thorough) LZ pairs through estimate / cost vectors / encode in both builds; the prefix space runs in both builds under C14.",
+         "Debug assertions are off in both builds, so overflow checking is the only difference.",
+         "DESIGN.md §6 C18"),
+ "C19": ("exploration", "metamorphic testing across 3..4 generated presentations of one collection through the real binary: equal listings and extractions, byte-identical archives within a mode",
+         "192 (quick) / 3000 (thorough) collections x (plain / gzip / multi-member gzip with boundaries anywhere, widths 1..100000 or unwrapped, CRLF, case, final newline) plus one-file vs per-sample-files for PanSN collections.",
+         "A byte difference is only blamed on presentation when two runs of the same presentation agree.",
+         "DESIGN.md §6 C19"),
  "C20": ("exploration", "exhaustive enumeration of small k / short strings + proptest random strings vs naive string model",
          "All 4^k windows for k<=8 and all strings up to length k+3 over {A,C,G,T,N} for small k are enumerated; k up to 32 (weighted to 31/32) is sampled with 2*10^5 (quick) / 5*10^6 (thorough) random strings. Exploration is the right level: the property is a pure function law and the risky region (k=32, shift 0) is reached by construction.",
          "Trusts the naive model in vlib/src/naive.rs (string reversal, left-aligned 2-bit packing). Callers' reset-at-non-ACGT protocol is part of the checked behaviour.",
